@@ -357,7 +357,21 @@ Section Spec.
 
   Definition closed_ok (tr : list ev) : bool := readers_closed tr 0 && writers_closed tr.
 
+  (* ---- 5. a backend failure is answered with a failure ----
+     (the error of a deferred Close is dropped by design; Size, ChunkSize and ID have no
+     error result) *)
+  Definition call_failed (e : ev) : bool :=
+    match e with
+    | ECall (WClose _) _ | ECall (WSize _) _ | ECall (WChunkSize _) _ | ECall (WID _) _ => false
+    | ECall _ (Err _) => true
+    | _ => false
+    end.
+  Definition is_failure (resp : hresp) : bool :=
+    match p_json resp with Some (JErr _) => true | _ => false end.
+  Definition errors_answered (tr : list ev) (resp : hresp) : bool :=
+    implb' (existsb call_failed tr) (is_failure resp).
+
   Definition spec_ok (o : opts) (req : hreq) (tr : list ev) (resp : hresp) : bool :=
-    status_ok resp && headers_ok o tr resp && args_ok tr && closed_ok tr.
+    status_ok resp && headers_ok o tr resp && args_ok tr && closed_ok tr && errors_answered tr resp.
 
 End Spec.
